@@ -12,4 +12,5 @@ template void sort<double>(double*, int64_t, bool (*)(const double&, const doubl
 template void heap_sort<double>(double*, int64_t, bool (*)(const double&, const double&));
 template void insertion_sort<double>(double*, int64_t, bool (*)(const double&, const double&));
 template uint64_t hash<uint64_t>(uint64_t);
+template bool default_sorted<double>(const double&, const double&);
 }
